@@ -95,6 +95,67 @@ func c30Resolve(specs []c30ConfSpec, name string) *c30ConfSpec {
 	return nil
 }
 
+// c30FormatRegexps: an independent, deliberately generous reading of "this relative file name could have been
+// produced by that record path format": every numeric token is any run of digits, %z any signed run of digits,
+// %path any non-empty string (tried both as short and as long as possible).
+func c30FormatRegexps(format string, ts bool) [2]*regexp.Regexp {
+	ext := ".mp4"
+	if ts {
+		ext = ".ts"
+	}
+	build := func(pathGroup string) *regexp.Regexp {
+		b := &strings.Builder{}
+		b.WriteString("^")
+		for i := 0; i < len(format); {
+			if format[i] == '%' {
+				switch {
+				case strings.HasPrefix(format[i:], "%path"):
+					b.WriteString(pathGroup)
+					i += 5
+					continue
+				case i+1 < len(format) && strings.ContainsRune("YmdHMSfs", rune(format[i+1])):
+					b.WriteString("[0-9]+")
+					i += 2
+					continue
+				case i+1 < len(format) && format[i+1] == 'z':
+					b.WriteString("[+-][0-9]+")
+					i += 2
+					continue
+				}
+			}
+			b.WriteString(regexp.QuoteMeta(format[i : i+1]))
+			i++
+		}
+		b.WriteString(regexp.QuoteMeta(ext) + "$")
+		return regexp.MustCompile(b.String())
+	}
+	return [2]*regexp.Regexp{build("(.+?)"), build("(.+)")}
+}
+
+// c30OtherOwner reports whether the file rel (relative to the record root) can be read, under the format of some
+// configuration of the case, as a segment of a path name that resolves to a configuration using exactly that format
+// - other than the reading (fi0, ts0, pn0) the generator intends (fi0 < 0: none intended). Such a file has two
+// legitimate fates and is never planted.
+func c30OtherOwner(specs []c30ConfSpec, rel string, fi0 int, ts0 bool, pn0 string) bool {
+	for i := range specs {
+		fi, ts := specs[i].fmtIdx, specs[i].ts
+		for _, re := range c30FormatRegexps(c30Formats[fi].f, ts) {
+			m := re.FindStringSubmatch(rel)
+			if m == nil {
+				continue
+			}
+			pn := m[1]
+			if fi == fi0 && ts == ts0 && pn == pn0 {
+				continue
+			}
+			if c := c30Resolve(specs, pn); c != nil && c.fmtIdx == fi && c.ts == ts {
+				return true
+			}
+		}
+	}
+	return false
+}
+
 type c30File struct {
 	path     string // absolute
 	kind     string
@@ -328,8 +389,15 @@ func TestVerifC30Retention(t *testing.T) {
 		// --- files ---
 		files := map[string]*c30File{}
 		var order []string
+		// the reading of the next file the generator intends (set by addSegShaped around its add call)
+		intendFi, intendTs, intendPn := -1, false, ""
+		contested := 0
 		add := func(f *c30File, content string, linkTarget string) bool {
 			if _, dup := files[f.path]; dup {
+				return false
+			}
+			if rel, err := filepath.Rel(dir, f.path); err == nil && c30OtherOwner(specs, filepath.ToSlash(rel), intendFi, intendTs, intendPn) {
+				contested++ // also a segment of some other path under another configuration's format: two legitimate fates
 				return false
 			}
 			if _, err := os.Lstat(f.path); err == nil {
@@ -416,7 +484,10 @@ func TestVerifC30Retention(t *testing.T) {
 				f.kind = tag + ":" + f.kind
 			}
 			f.desc = fmt.Sprintf("%s[%s path=%q start=%s]", f.kind, strings.TrimPrefix(p, dir), pn, start.Format(time.RFC3339Nano))
-			if add(f, "S", "") {
+			intendFi, intendTs, intendPn = fi, ts, pn
+			added := add(f, "S", "")
+			intendFi, intendTs, intendPn = -1, false, ""
+			if added {
 				if tag == "" {
 					segs = append(segs, segInfo{p, expired, c30Formats[fi].flat, fi, ts, pn, start})
 				}
@@ -621,6 +692,9 @@ func TestVerifC30Retention(t *testing.T) {
 		}
 		if nDel == 0 {
 			classes = append(classes, "nothing-to-delete")
+		}
+		if contested > 0 {
+			classes = append(classes, "generator-skipped-file-with-two-owners")
 		}
 		rec.Case(hasLookalikeOfExpired, desc, classes...)
 	})
